@@ -861,6 +861,16 @@ func (c *fctx) assigned(n ast.Node) []envKey {
 				} else if f := c.calledFunc(call); f != nil && len(call.Args) == 1 {
 					if _, isOpaque := c.opaqueName(f); isOpaque && f.Type().(*types.Signature).Results().Len() == 0 {
 						add(c.keysOf(call.Args[0])) // in-place opaque function (sort.Float64s)
+						if ue, ok := unparen(call.Args[0]).(*ast.UnaryExpr); ok && ue.Op == token.AND {
+							if cl, ok := unparen(ue.X).(*ast.CompositeLit); ok {
+								for _, el := range cl.Elts {
+									if kv, isKV := el.(*ast.KeyValueExpr); isKV {
+										el = kv.Value
+									}
+									add(c.keysOf(el)) // sort.Sort(&pairSlice{xs, ys})
+								}
+							}
+						}
 					}
 				}
 			}
@@ -1150,6 +1160,9 @@ func (c *fctx) stmts(list []ast.Stmt, k func() string) string {
 			// copy(dst, src) on a slice variable dst
 			n := c.bind(dst, dst.Name())
 			return fmt.Sprintf("let %s := (go_copy %s %s) in\n", n, old, src) + next()
+		}
+		if out, ok := c.inPlaceOpaqueLit(call); ok {
+			return out + next()
 		}
 		if o2, name, arg := c.inPlaceOpaque(call); o2 != nil {
 			// f(xs) of an opaque function without results (sort.Float64s): xs becomes  f xs
@@ -2151,7 +2164,7 @@ func (c *fctx) expr(e ast.Expr) string {
 	case *ast.FuncLit:
 		return c.funcLit(x)
 	case *ast.SliceExpr:
-		c.fail(x.Pos(), "slice expression a[i:j]")
+		return c.sliceExpr(x)
 	case *ast.TypeAssertExpr:
 		return c.typeAssert(x)
 	}
@@ -2542,6 +2555,28 @@ func (c *fctx) callN(x *ast.CallExpr, nres int) string {
 	case *ast.SelectorExpr:
 		if sel, ok := c.info.Selections[fn]; ok {
 			if sel.Kind() == types.FieldVal {
+				// r.F(args) with the directive "T.F": an opaque function of the record and the arguments
+				if rt, ok := c.tryType(c.info.TypeOf(fn.X)); ok && rt.k == kRec && c.u.group.Opaque != nil {
+					if name, has := c.u.group.Opaque[c.record(rt.rec, x.Pos()).name+"."+fn.Sel.Name]; has {
+						fsig, _ := sel.Obj().Type().Underlying().(*types.Signature)
+						if fsig == nil {
+							c.fail(x.Pos(), "call of the non-function field %s", fn.Sel.Name)
+						}
+						parts := []string{name, c.expr(fn.X)}
+						tys := []string{c.coqTy(rt, x.Pos())}
+						for i, a := range x.Args {
+							parts = append(parts, c.exprAs(a, fsig.Params().At(i).Type()))
+							tys = append(tys, c.coqTy(c.typeOf(fsig.Params().At(i).Type(), x.Pos()), x.Pos()))
+						}
+						var rs []string
+						for i := 0; i < fsig.Results().Len(); i++ {
+							rs = append(rs, c.coqTy(c.typeOf(fsig.Results().At(i).Type(), x.Pos()), x.Pos()))
+						}
+						tys = append(tys, strings.Join(rs, " * "))
+						c.addOpq(opq{name: name, typ: strings.Join(tys, " -> ")}, x.Pos())
+						return "(" + strings.Join(parts, " ") + ")"
+					}
+				}
 				c.fail(x.Pos(), "call of a function-valued field %s", fn.Sel.Name)
 			}
 			f, _ = sel.Obj().(*types.Func)
